@@ -97,6 +97,27 @@ def parseFx (s : String) : Option Fx :=
     else none
   | _ => none
 
+/-- pull trace of a `StepTo`: the size hint first, then per pull (`f` = next, `b` = next_back) the
+value (`-` when exhausted) and the size hint again -/
+def stepTrace (s : StepTo) (ops : List Char) (acc : List String) : String :=
+  let hint := match stepToSizeHint s with | .ok h => s!"h{h}" | _ => "hpanic"
+  match ops with
+  | [] => " ".intercalate (hint :: acc).reverse
+  | c :: rest =>
+    match (if c == 'b' then stepToNextBack s else stepToNext s) with
+    | .ok (v, s') =>
+      stepTrace s' rest ((match v with | some x => s!"{c}{x}" | none => s!"{c}-") :: hint :: acc)
+    | _ => " ".intercalate ("panic" :: hint :: acc).reverse
+
+/-- `t3,f2,…` → retain moves -/
+def parseMoves (s : String) : Option (List RetainMove) :=
+  if s == "-" then some [] else
+  (s.splitOn ",").mapM fun m =>
+    match m.toList with
+    | 't' :: rest => (String.ofList rest).toInt?.map fun n => (true, n)
+    | 'f' :: rest => (String.ofList rest).toInt?.map fun n => (false, n)
+    | _ => none
+
 def handleFx (fx : Fx) (items : List Sexp) : String :=
   let bad := "bad-request"
   match items with
@@ -171,8 +192,15 @@ def handleFx (fx : Fx) (items : List Sexp) : String :=
     | some a, some n => resStr toString (shiftRightG fx a n) | _, _ => bad
   | [.atom "abs", a] => match a.int? with
     | some a => resStr toString (absIntG fx a) | none => bad
-  | [.atom "stepto", a, b, c] => match a.int?, b.int?, c.int? with
-    | some a, some b, some c => resStr (fun _ => "iter") (stepToNew a b c) | _, _, _ => bad
+  | [.atom "stepto", a, b, c, .atom ops] => match a.int?, b.int?, c.int? with
+    | some a, some b, some c =>
+      (match stepToNew a b c with
+      | .ok s => "ok " ++ stepTrace s (ops.toList.filter (fun ch => ch == 'f' || ch == 'b')) []
+      | .panic => "panic"
+      | .err => "err")
+    | _, _, _ => bad
+  | [.atom "retain", len0, .atom moves] => match len0.int?, parseMoves moves with
+    | some len0, some ms => resStr toString (listRetain true len0 ms) | _, _ => bad
   | [.atom "expanded", s, e, n] => match s.int?, e.int?, n.int? with
     | some s, some e, some n => resStr pairStr (rangeExpandedG fx s e n) | _, _, _ => bad
   | [.atom "linsert", len, .atom n] => match len.int?, numView n with
